@@ -104,7 +104,8 @@ type Conn struct {
 	From  string `json:"from"` // "proc.port"
 	To    string `json:"to"`
 	Param bool   `json:"param,omitempty"`
-	Via   string `json:"via,omitempty"` // "from": In.From(Out) (default) | "to": Out.To(In)
+	Via   string `json:"via,omitempty"`  // "from": In.From(Out) (default) | "to": Out.To(In)
+	Undo  string `json:"undo,omitempty"` // file connections: taken off again through the public InPort.Disconnect ("in") or through both ports' Disconnect ("both")
 }
 
 // Run says how to run the workflow.
